@@ -20,6 +20,7 @@ import (
 	"encoding/json"
 	"fmt"
 	"reflect"
+	"strings"
 
 	"github.com/bytedance/sonic"
 
@@ -164,7 +165,7 @@ func internalMarshal(v any) (*internalStruct, error) {
 				ret.PointerNum++
 				rt = rt.Elem()
 			}
-			key, ok := rm[rt]
+			key, ok := lookupKey(rt)
 			if !ok {
 				return nil, fmt.Errorf("unknown type: %v", rt)
 			}
@@ -212,7 +213,7 @@ func internalMarshal(v any) (*internalStruct, error) {
 			ret.MapKeyPointerNum++
 			rkt = rkt.Elem()
 		}
-		key, ok := rm[rkt]
+		key, ok := lookupKey(rkt)
 		if !ok {
 			return nil, fmt.Errorf("unknown type: %v", rkt)
 		}
@@ -223,7 +224,7 @@ func internalMarshal(v any) (*internalStruct, error) {
 			ret.MapValuePointerNum++
 			rvt = rvt.Elem()
 		}
-		key, ok = rm[rvt]
+		key, ok = lookupKey(rvt)
 		if !ok {
 			return nil, fmt.Errorf("unknown type: %v", rvt)
 		}
@@ -260,7 +261,7 @@ func internalMarshal(v any) (*internalStruct, error) {
 			ret.SliceValuePointerNum++
 			rvt = rvt.Elem()
 		}
-		key, ok := rm[rvt]
+		key, ok := lookupKey(rvt)
 		if !ok {
 			return nil, fmt.Errorf("unknown type: %v", rvt)
 		}
@@ -331,7 +332,7 @@ func internalUnmarshal(v *internalStruct) (any, error) {
 
 	if len(v.Type) != 0 {
 		// based type
-		t, ok := m[v.Type]
+		t, ok := lookupType(v.Type)
 		if !ok {
 			return nil, fmt.Errorf("unknown type key: %v", v.Type)
 		}
@@ -390,12 +391,12 @@ func internalUnmarshal(v *internalStruct) (any, error) {
 
 	if len(v.MapKeyType) > 0 {
 		// map
-		rkt, ok := m[v.MapKeyType]
+		rkt, ok := lookupType(v.MapKeyType)
 		if !ok {
 			return nil, fmt.Errorf("unknown type: %v", v.MapKeyType)
 		}
 		rkt = resolvePointerNum(v.MapKeyPointerNum, rkt)
-		rvt, ok := m[v.MapValueType]
+		rvt, ok := lookupType(v.MapValueType)
 		if !ok {
 			return nil, fmt.Errorf("unknown type: %v", v.MapValueType)
 		}
@@ -433,7 +434,7 @@ func internalUnmarshal(v *internalStruct) (any, error) {
 	}
 
 	// slice
-	rvt, ok := m[v.SliceValueType]
+	rvt, ok := lookupType(v.SliceValueType)
 	if !ok {
 		return nil, fmt.Errorf("unknown type: %v", v.SliceValueType)
 	}
@@ -481,6 +482,77 @@ func internalUnmarshal(v *internalStruct) (any, error) {
 		}
 	}
 	return result.Interface(), nil
+}
+
+// lookupKey names the element (key, pointee) type of a container: the registered name, or, for
+// an unnamed slice, map or pointer type built from such types, a composed name
+// ("[]<elem>", "map[<key>]<elem>", "*<elem>").
+func lookupKey(t reflect.Type) (string, bool) {
+	if key, ok := rm[t]; ok {
+		return key, true
+	}
+	if t.Name() != "" {
+		return "", false
+	}
+	switch t.Kind() {
+	case reflect.Ptr:
+		key, ok := lookupKey(t.Elem())
+		return "*" + key, ok
+	case reflect.Slice:
+		key, ok := lookupKey(t.Elem())
+		return "[]" + key, ok
+	case reflect.Map:
+		kk, ok := lookupKey(t.Key())
+		if !ok {
+			return "", false
+		}
+		vk, ok := lookupKey(t.Elem())
+		return "map[" + kk + "]" + vk, ok
+	}
+	return "", false
+}
+
+// lookupType is the reverse of lookupKey. Registered names take precedence.
+func lookupType(key string) (reflect.Type, bool) {
+	if t, ok := m[key]; ok {
+		return t, true
+	}
+	switch {
+	case strings.HasPrefix(key, "*"):
+		t, ok := lookupType(key[1:])
+		if !ok {
+			return nil, false
+		}
+		return reflect.PointerTo(t), true
+	case strings.HasPrefix(key, "[]"):
+		t, ok := lookupType(key[2:])
+		if !ok {
+			return nil, false
+		}
+		return reflect.SliceOf(t), true
+	case strings.HasPrefix(key, "map["):
+		depth := 0
+		for i := 3; i < len(key); i++ {
+			switch key[i] {
+			case '[':
+				depth++
+			case ']':
+				depth--
+			}
+			if depth == 0 {
+				kt, ok := lookupType(key[4:i])
+				if !ok || !kt.Comparable() {
+					return nil, false
+				}
+				vt, ok := lookupType(key[i+1:])
+				if !ok {
+					return nil, false
+				}
+				return reflect.MapOf(kt, vt), true
+			}
+		}
+	}
+	return nil, false
 }
 
 func resolvePointerNum(pointerNum uint32, t reflect.Type) reflect.Type {
